@@ -185,9 +185,9 @@ func main() {
 			}
 		})
 	}
-	explore(alphabet, r.Pick(4, 5), false)
-	explore(alphabet, r.Pick(3, 4), true)
-	explore(alphabetWide, r.Pick(3, 4), false)
+	explore(alphabet, r.Pick(4, 6), false)
+	explore(alphabet, r.Pick(3, 5), true)
+	explore(alphabetWide, r.Pick(3, 5), false)
 	// every single bit of the 48 bit range as "newest", probed by all neighbours
 	var bits []uint64
 	for b := 0; b < 48; b++ {
@@ -257,7 +257,7 @@ func main() {
 		"rule":                          "every history of signed frames over the timestamp alphabet up to the depth bound is fed to a fresh keyed frame.Reader; each Read decision is compared with ref.Window; a state is the reference 'newest accepted timestamp'; non-trivial = distinct reference states reached",
 		"alphabet":                      alphabet,
 		"alphabet_wide":                 alphabetWide,
-		"depth":                         r.Pick(4, 5),
+		"depth":                         r.Pick(4, 6),
 	})
 }
 
